@@ -76,6 +76,12 @@ def make_tree():
         os.makedirs(os.path.dirname(p), exist_ok=True)
         with open(p, 'wb') as f:
             f.write(data)
+    # a backup / deploy mirror OUTSIDE the root whose own path contains the root's complete absolute path
+    m = os.path.join(T, 'mirror', T.lstrip('/'), 'root')
+    os.makedirs(m, exist_ok=True)
+    for fn in ('in.txt', 'old.txt'):
+        with open(os.path.join(m, fn), 'wb') as f:
+            f.write(b'DECOY-mirror')
     return T
 
 
@@ -86,6 +92,11 @@ def shards(tier, seed):
         for si in range(len(SEGS)):
             k = 4 if (ri == 0 or (tier == 'thorough' and ri in (1, 4))) else 3
             out.append((ri, si, k, None))
+    # two calls for one root on two threads, every schedule with <= 1 (thorough 2) preemptions at source-line granularity
+    for pi in range(len(THREAD_PAIRS)):
+        for rj in range(len(THREAD_ROOTS)):
+            for start in (0, 1):
+                out.append(('threads', pi, rj, start, 1 if tier == 'quick' or pi > 1 else 2))
     # two roots in ONE process, one nested in the other: names served through the outer root must not open the inner root up
     out.append(('nested', None, 3, None))
     # sibling directories that differ from the root only in letter case (all names up to 3 / 4 segments containing one)
@@ -96,6 +107,10 @@ def shards(tier, seed):
     for ri in (0, 2, 5):
         out.append((ri, None, 3, 'roo'))
         out.append((ri, None, 3, 'r'))
+    # a mirror of the tree beside the root: '<T>/mirror/<T>/root/...' contains the root's absolute path without being inside it
+    for ri in (0, 1, 2):
+        out.append((ri, None, 3, 'mirror@TROOT'))
+        out.append((ri, None, 3, 'mirror@T'))
     # characters that only LOOK like dots and slashes (fullwidth full stop, two-dot leader, fullwidth solidus): ordinary name characters
     for ri in (0, 2):
         for extra in ('\uff0e\uff0e', '\u2025', '\uff0e', '..\uff0fabove.txt', '\uff0f',
@@ -119,7 +134,7 @@ def bounds(tier, seed):
             'max_segments': '4 for root 0, 3 otherwise' if tier == 'quick' else '4 for roots 0, 1 and 4, 3 otherwise'}
 
 
-FLOORS = {'not_modified_304': 20, 'nested_root_calls': 1000, 'outside': 1000, 'served_200': 50, 'denied_403': 1000, 'missing_404': 100}
+FLOORS = {'schedules': 1000, 'not_modified_304': 20, 'nested_root_calls': 1000, 'outside': 1000, 'served_200': 50, 'denied_403': 1000, 'missing_404': 100}
 
 
 # ---- independent normaliser ----------------------------------------------------------------------------------
@@ -233,9 +248,134 @@ def work_nested(res):
     return res
 
 
-def work(spec):
-    ri, si, k, extra = spec
+# ---- two threads inside static_file for ONE root (E-SCHED): the containment verdict belongs to the call that asked -------------
+
+THREAD_PAIRS = [('in.txt', '../above.txt'), ('sub/s.txt', '../rootx/d.txt'), ('in.txt', 'sub/s.txt'), ('../above.txt', '../rootx/d.txt'),
+                ('in.txt', '@T/above.txt'), ('nothing.txt', '../above.txt')]
+THREAD_ROOTS = ['@T/root', 'root']
+
+
+def run_threads(ss, T, root, pair, prefix, opened, om=None):
+    from vf.sched import Scheduler
+    real_open = open
+
+    def rec_open(path, *a, **kw):
+        import threading
+        opened.append((threading.current_thread().name, path))
+        return real_open(path, *a, **kw)
+    ss.open = rec_open
+
+    def prog(name):
+        def run():
+            sut.load().request.__init__({'REQUEST_METHOD': 'GET', 'PATH_INFO': '/', 'wsgi.input': None})      # the request of THIS thread
+            r = ss.static_file(name.replace('@T', T), root.replace('@T', T))
+            data = None
+            if hasattr(r.body, 'read'):
+                data = r.body.read()
+                r.body.close()
+            return r.status_code, data
+        return run
+    sp = os.path.join(os.path.realpath(sut.SRC), 'ombott') + os.sep
+    try:
+        return Scheduler([prog(pair[0]), prog(pair[1])], prefix, lambda fn: fn.startswith(sp)).run()
+    finally:
+        try:
+            del ss.open
+        except AttributeError:
+            pass
+
+
+def judge_threads(T, root, pair, x, opened):
+    if x.hung:
+        return 'threads:hang', 'a thread did not finish'
+    for t, e in x.errors.items():
+        return 'threads:error', f'thread {t} raised {type(e).__name__}: {e}'.replace(T, '@T')
+    filemap = {tuple(norm_abs(os.path.join(T, rel), T)): data for rel, data in FILES.items()}
+    r = norm_abs(root.replace('@T', T), T)
+    for who, p in opened:
+        pl = norm_abs(p, T)
+        if not (len(pl) > len(r) and pl[:len(r)] == r):
+            return 'threads:opened', f'{p.replace(T, "@T")!r} was opened, which is outside the root'
+    for t in (0, 1):
+        code, data = x.results[t]
+        _, loc, inside = ref_location(root.replace('@T', T), pair[t].replace('@T', T), T)
+        exp = filemap.get(tuple(loc)) if inside else None
+        if code == 200 and (exp is None or data != exp):
+            return 'threads:200', f'static_file({pair[t]!r}) answered 200 with {data!r}; its normalised location holds {exp!r} (inside={inside})'
+        if code != 200 and exp is not None:
+            return 'threads:denied', f'static_file({pair[t]!r}) answered {code} for a file inside the root'
+        if code not in (200, 403, 404):
+            return 'threads:status', f'static_file({pair[t]!r}) answered {code}'
+    return None
+
+
+def work_threads(spec):
+    from vf.sched import explore
+    _, pi, rj, start, bound = spec
     res = core.new_result()
+    om = sut.load(fresh=True)
+    ss = sut.sub('static_stream')
+    T = make_tree()
+    old_cwd = os.getcwd()
+    os.chdir(T)
+    c = res['counters']
+    pair, root = THREAD_PAIRS[pi], THREAD_ROOTS[rj]
+    try:
+        om.request.__init__({'REQUEST_METHOD': 'GET', 'PATH_INFO': '/', 'wsgi.input': None})
+        opened = []
+
+        def run(p):
+            del opened[:]
+            sut.load(fresh=True)            # every schedule starts from a freshly imported framework: nothing remembered from the one before
+            return run_threads(sut.sub('static_stream'), T, root, pair, p, opened)
+        for prefix, x in explore(run, bound, base=(start,)):
+            res['states'] += 1
+            res['transitions'] += len(x.points)
+            c['schedules'] += 1
+            if x.switches:
+                res['nontrivial'] += 1
+            v = judge_threads(T, root, pair, x, opened)
+            res['outcomes'].add(f'threads {pair} -> {"ok" if v is None else v[0]}')
+            if v is not None:
+                core.add_violation(res, {'kind': 'threads', 'pair': pi, 'root': rj, 'choices': list(x.choices)},
+                                   f'static_file({pair[0]!r}) and static_file({pair[1]!r}) for the root {root!r} on two threads, {x.switches} switches: {v[1]}',
+                                   sig=v[0])
+        res['execs'] = res['states']
+        core.add_sample(res, {'threads': list(pair), 'root': root, 'first_thread': start, 'preemption_bound': bound, 'schedules': c['schedules']})
+    finally:
+        os.chdir(old_cwd)
+        shutil.rmtree(T, ignore_errors=True)
+        sut.load(fresh=True)
+    return res
+
+
+def replay_threads(case):
+    om = sut.load(fresh=True)
+    ss = sut.sub('static_stream')
+    T = make_tree()
+    old_cwd = os.getcwd()
+    os.chdir(T)
+    pair, root = THREAD_PAIRS[case['pair']], THREAD_ROOTS[case['root']]
+    try:
+        om.request.__init__({'REQUEST_METHOD': 'GET', 'PATH_INFO': '/', 'wsgi.input': None})
+        opened = []
+        x = run_threads(ss, T, root, pair, case['choices'], opened)
+        v = judge_threads(T, root, pair, x, opened)
+        if v is None:
+            return None
+        return (f'static_file({pair[0]!r}) and static_file({pair[1]!r}) for the root {root!r} on two threads under the schedule with '
+                f'{x.switches} switches: {v[1]}')
+    finally:
+        os.chdir(old_cwd)
+        shutil.rmtree(T, ignore_errors=True)
+        sut.load(fresh=True)
+
+
+def work(spec):
+    ri, si, k, extra = spec[:4]
+    res = core.new_result()
+    if ri == 'threads':
+        return work_threads(spec)
     if ri == 'nested':
         return work_nested(res)
     om = sut.load()
@@ -262,6 +402,7 @@ def work(spec):
         os.chdir(cwd)
         segs = [s.replace('@TROOT', T + '/root').replace('@T', T) for s in SEGS]
         if extra is not None:
+            extra = extra.replace('@TROOT', T + '/root').replace('@T', T)
             segs = segs + [extra]
         c = res['counters']
         filemap = {tuple(norm_abs(os.path.join(T, rel), T)): data for rel, data in FILES.items()}
@@ -350,6 +491,8 @@ def work(spec):
 
 
 def replay(case):
+    if case.get('kind') == 'threads':
+        return replay_threads(case)
     if 'nested_upto' in case:
         om = sut.load(fresh=True)
         ss = sut.sub('static_stream')
